@@ -187,6 +187,13 @@ def _is_fresh_local(fb, fn, vid, depth=0):
                 if g is not None and any(x['k'] == 'CXXNewExpr' or x.get('cn', '').split('::')[-1] in FRESH_MAKERS
                                          for x in g.own_nodes()):
                     return True
+    # a second name for a fresh object: `auto* raw = core.Get();` where `core` is fresh
+    if depth < 2:
+        for d in [init] + list(fn.descendants(init)):
+            m = fn.nodes[d]
+            if m['k'] == 'DeclRefExpr' and m.get('id') is not None and m['id'] != vid and m['id'] not in fn.params \
+                    and m['id'] in fn.locals and _is_fresh_local(fb, fn, m['id'], depth + 1):
+                return True
     return False
 
 
